@@ -1421,6 +1421,7 @@ fn verify_upgrade(
             grow = false;
             let root_index = iter.index();
             if i < changeset.roots.len() {
+                // NB: roots is not empty here because i < roots.len()
                 iter.seek(changeset.roots[changeset.roots.len() - 1].index);
                 while iter.index() != root_index {
                     changeset.append_root(q.shift(iter.sibling())?, &mut iter);
@@ -1434,7 +1435,15 @@ fn verify_upgrade(
     }
     let extra = &upgrade.additional_nodes;
 
-    iter.seek(changeset.roots[changeset.roots.len() - 1].index);
+    let last_root_index = match changeset.roots.last() {
+        Some(root) => root.index,
+        None => {
+            return Err(HypercoreError::InvalidOperation {
+                context: "Upgrade does not contain any roots".to_string(),
+            });
+        }
+    };
+    iter.seek(last_root_index);
     i = 0;
 
     while i < extra.len() && extra[i].index == iter.sibling() {
